@@ -106,7 +106,8 @@ def gen_merge(rng):
         if len(votes) == 1 and not pool and tp is None:
             vias.append("vote")
         recs.append(_r(id, votes, phantom, pool, tp, rng.choice(vias)))
-    return {"op": "merge", "recs": recs}
+    from ..core import CONTAINER_KINDS
+    return {"op": "merge", "recs": recs, "container": rng.choice(CONTAINER_KINDS)}
 
 
 ODD_CELLS = ["A,B", 'say "x"', " 17", "17 ", "", "a b"]
@@ -270,7 +271,8 @@ def impl(case):
     op = case["op"]
     if op == "merge":
         cvrs = [build_cvr(r) for r in case["recs"]]          # fresh objects: merge_cvrs mutates its inputs
-        out = CVR.merge_cvrs(cvrs)
+        from ..core import container
+        out = CVR.merge_cvrs(container(case.get("container"), cvrs))
         return {"st": "ok", "recs": [canon_cvr(c) for c in out]}
     if op == "raire":
         rows = [list(r) for r in case["rows"]]
